@@ -37,7 +37,8 @@ APP = "http://schemas.android.com/apk/res-auto"
 RESIDS = {"name": 0x01010003, "label": 0x01010001, "versionCode": 0x0101021B, "exported": 0x01010010, "theme": 0x01010000, "value": 0x01010024}
 NAMES = ["manifest", "application", "activity", "a", "b", "meta-data", "x.y", "intent_filter", "item", "_root", "_", "A1"]
 ATTRS = ["name", "label", "versionCode", "exported", "theme", "value", "package", "custom", "k-1", "_id", "_"]
-TEXTS = ["foo", "bar", " ", "héllo", "x中", "a&b<c>", "\U0001F600", "中" * 50, "я" * 100, "a" * 130, "é" * 127 + "x"]
+TEXTS = ["foo", "bar", " ", "héllo", "x中", "a&b<c>", "\U0001F600", "中" * 50, "я" * 100, "a" * 130, "é" * 127 + "x",
+         "No.\u4e00", "a\u0100b", "x\u3000y", "\u00e9\u0200", "\u0100a", "\u00a0", " \t "]       # a unit with low byte 0 after a unit with high byte 0
 
 
 def rand_attr(rng, nss):
@@ -45,7 +46,7 @@ def rand_attr(rng, nss):
     ns = rng.choice(nss) if nss and rng.random() < 0.7 else None
     r = rng.random()
     if r < 0.4:
-        return (ns, nm, None, 3, rng.choice(["com.ex.App", ".Main", "", "vé", "@string/x", "a\x00b", "tab\there", "中文", "z" * 40, "文" * 43, "ж" * 64, "q" * 127, "q" * 128, "ü" * 200]))
+        return (ns, nm, None, 3, rng.choice(["com.ex.App", ".Main", "", "vé", "@string/x", "a\x00b", "tab\there", "中文", "z" * 40, "文" * 43, "ж" * 64, "q" * 127, "q" * 128, "ü" * 200, "No.\u4e00", "k\u0300", "1\u0100"]))
     if r < 0.55:
         return (ns, nm, None, 0x10, rng.choice((0, 1, 7, 2**31 - 1, 2**31, 2**32 - 1)))
     if r < 0.65:
